@@ -17,7 +17,7 @@ func init() {
 	Registry["C12"] = c12
 	Metas["C12"] = Meta{Level: "other", NeedCG: true,
 		Technique: "static analysis: must-send-exactly-once path check on hook listeners, blocking-send reachability from the consensus goroutine over the VTA call graph, lock-order graph, finite-domain decision tables of the timeout staleness tests, must-schedule dominance",
-		Explain: "Liveness (termination under fair schedules) is not statically decidable here; decided instead are the structural ways this node can wedge itself. (R1) every hook listener that owes a reply sends exactly once on the event's ResCh on every path, the reply channels have capacity >= 1, and default listeners are installed when no application hooked; (R2) no blocking channel send on the consensus goroutine's own input queues is reachable (without `go`) from handleMsg/handleTimeout, and the ticker routine never blocks outside its select; (R3) the lock-order graph over the named mutexes reachable from the consensus and gossip routines is acyclic; (R4) the staleness decision tables of handleTimeout (27 states), timeoutRoutine (81 states) and CompareHRS (27 states) equal their specifications, exhaustively; handleTimeout dispatches each step to the right transition; (R5) every wait step schedules its own timeout on all paths and the height epilogue schedules round 0. NOT decided: termination, fairness, gossip completeness.",
+		Explain: "Liveness (termination under fair schedules) is not statically decidable here; decided instead are the structural ways this node can wedge itself. (R1) every hook listener that owes a reply sends exactly once on the event's ResCh on every path, the reply channels have capacity >= 1, and default listeners are installed when no application hooked; (R2) no blocking channel send on the consensus goroutine's own input queues is reachable (without `go`) from handleMsg/handleTimeout, and the ticker routine never blocks outside its select; (R3) the lock-order graph over the named mutexes reachable from the consensus and gossip routines is acyclic; (R4) the staleness decision tables of handleTimeout (27 states), timeoutRoutine (81 states) and CompareHRS (27 states) equal their specifications, exhaustively; handleTimeout dispatches each step to the right transition; (R5) every wait step schedules its own timeout on all paths and the height epilogue schedules round 0. (R6) defaultSetProposal rejects a proposal for its POLRound exactly outside {-1} ∪ [0, Round). NOT decided: termination, fairness, gossip completeness.",
 		Assume: []string{"Go runtime scheduling is fair", "time.Timer fires"},
 	}
 }
@@ -28,6 +28,7 @@ func c12(c *Ctx) {
 	c12R3(c)
 	c12R4(c)
 	c12R5(c)
+	c12R6(c)
 }
 
 func isResChSend(ins ssa.Instruction) bool {
@@ -401,4 +402,54 @@ func c12R5(c *Ctx) {
 		}
 		c.R.Ob(rule, "scheduleRound0:NewHeight-timeout", ok, c.P.Pos(f.F.Pos()), fname(f), "round 0 is started by a NewHeight timeout for (rs.Height, 0)")
 	}
+}
+
+// c12R6: a proposal carrying a proof-of-lock round must stay acceptable — once some validators are
+// locked, every later proposal of the height carries POLRound >= 0; rejecting those stalls the height.
+func c12R6(c *Ctx) {
+	rule := c.R.Rule("R6", "proposal acceptance window: defaultSetProposal returns ErrInvalidProposalPOLRound exactly when POLRound != -1 and (POLRound < 0 or Round <= POLRound); every path that goes on to the signature check has POLRound == -1, or POLRound >= 0 and POLRound < Round", 2)
+	f := c.Anchor(rule, csT+".defaultSetProposal")
+	if f == nil {
+		return
+	}
+	var rej *ssa.Return
+	for _, r := range f.Returns() {
+		vs := f.ReturnValues(r)
+		if len(vs) == 1 && strings.HasSuffix(exprOf(vs[0]), "ErrInvalidProposalPOLRound") {
+			rej = r
+		}
+	}
+	if rej == nil {
+		c.R.Undecided(rule, "reject-return", c.P.Pos(f.F.Pos()), fname(f), "no return of ErrInvalidProposalPOLRound")
+		return
+	}
+	has := func(g map[string]bool, alts ...string) bool {
+		for _, a := range alts {
+			if g[a] {
+				return true
+			}
+		}
+		return false
+	}
+	neg := func(g map[string]bool) bool { return has(g, "(a1.POLRound < 0)", "(a1.POLRound <= -1)") }
+	nonneg := func(g map[string]bool) bool { return has(g, "(a1.POLRound >= 0)", "(a1.POLRound > -1)") }
+	ok, why := everyPath(f, rej, func(g map[string]bool) bool {
+		return g["(a1.POLRound != -1)"] && (neg(g) || g["(a1.Round <= a1.POLRound)"])
+	})
+	c.R.Ob(rule, "reject⇒POLRound-out-of-window", ok, c.Pos(rej), fname(f), "a proposal is rejected for its POLRound only when POLRound is neither -1 nor in [0, Round); "+why)
+	// the accept side: first instruction after the window test that is reached on the accepting paths = the VerifyBytes call
+	var ver ssa.Instruction
+	for _, ci := range f.Calls() {
+		if ci.Common().IsInvoke() && ci.Common().Method.Name() == "VerifyBytes" {
+			ver = ci
+		}
+	}
+	if ver == nil {
+		c.R.Undecided(rule, "accept-side", c.P.Pos(f.F.Pos()), fname(f), "no VerifyBytes call")
+		return
+	}
+	ok, why = everyPath(f, ver, func(g map[string]bool) bool {
+		return g["(a1.POLRound == -1)"] || (nonneg(g) && g["(a1.Round > a1.POLRound)"])
+	})
+	c.R.Ob(rule, "accept⇒POLRound-in-window", ok, c.Pos(ver), fname(f), "the signature check is reached exactly for POLRound == -1 or 0 <= POLRound < Round (POLRound 0 included: a polka in round 0 is the common case); "+why)
 }
